@@ -346,6 +346,8 @@ class Stream(Iterable[Elem]):
             exc_types = ()
         elif type(exc_types) is type:  # a class
             exc_types = (exc_types,)
+        else:
+            exc_types = tuple(exc_types)  # e.g. a list; `isinstance` needs a tuple
         if prefix:
             if not prefix.endswith(' ') and not prefix.endswith('\n'):
                 prefix = prefix + ' '
